@@ -544,7 +544,7 @@ def sanitizer_kind(log: str) -> str:
 
 def leg2(
     chk: harness.Check, cases: List[Case], work: pathlib.Path, shared: pathlib.Path,
-    wait_until: float,
+    wait_until: float, with_utf16: bool = True,
 ) -> None:
     """Generate C++ for the batch through the real generator, compile, run, compare."""
     cases = list(cases)
@@ -594,7 +594,7 @@ def leg2(
     # ``#if __WCHAR_MAX__ <= 0x10000``), for the patterns where it differs: compiled
     # with that macro re-defined and fed with UTF-16 code units.
     sub = [c for c in cases if c.prog16 is not None and c.prog16 != c.prog and c.reference16]
-    if not sub:
+    if not sub or not with_utf16:
         return
     with Phase(chk, "generate_cpp"):
         res16 = generate_cpp([c.pattern for c in sub])
@@ -743,7 +743,8 @@ def run_shard(
     if cpp and cpp_cases and (time.time() < deadline or first_round):
         work = env.new_dir(f"c18-shard{shard}")
         try:
-            leg2(chk, cpp_cases, work, pathlib.Path(shared), deadline + 600)
+            # the 16-bit variant costs a second compilation: every other batch
+            leg2(chk, cpp_cases, work, pathlib.Path(shared), deadline + 600, shard % 2 == 0)
         finally:
             shutil.rmtree(work, ignore_errors=True)
     elif cpp and cpp_cases:
@@ -800,9 +801,10 @@ def main(argv) -> int:
             "reference interpreter of the documented instruction semantics alone"
         )
 
-    n_generated = chk.pick(330, 7600)
+    n_generated = chk.pick(300, 4000)
     n_strings = chk.pick(40, 100)
-    batch = chk.pick(60, 120)
+    # few, large translation units: every g++ run pays ~8 s for the headers alone
+    batch = chk.pick(120, 160)
     workers = WORKERS
 
     rng = chk.rng("patterns")
@@ -841,7 +843,7 @@ def main(argv) -> int:
 
     # interleave so that every shard gets fixed, corpus and generated patterns
     shards: List[List[Tuple[str, str, List[str]]]] = []
-    n_shards = max(workers, (len(items) + batch - 1) // batch)
+    n_shards = max(chk.pick(4, workers), (len(items) + batch - 1) // batch)
     for s in range(n_shards):
         shards.append(items[s::n_shards])
 
